@@ -1677,6 +1677,7 @@ MUTANTS += [
 ]
 
 BENIGN = [
+    dict(name='c03-b-destructor-wait-branches-swapped', prop='C03', edits=[('include/oneapi/tbb/task_group.h', "            if (stack_unwinding_in_progress) {\n                // Another exception is already in flight: an exception of the group's own tasks must not leave the\n                // destructor as well (that would terminate the program); it cannot be reported any more.\n#if TBB_USE_EXCEPTIONS\n                try\n#endif\n                {\n                    d1::wait(m_wait_vertex.get_context(), context());\n                }\n#if TBB_USE_EXCEPTIONS\n                catch (...) {}\n#endif\n            } else {\n                d1::wait(m_wait_vertex.get_context(), context());\n                throw_exception(exception_id::missing_wait);\n            }\n", '            if (!stack_unwinding_in_progress) {\n                d1::wait(m_wait_vertex.get_context(), context());\n                throw_exception(exception_id::missing_wait);\n            }\n#if TBB_USE_EXCEPTIONS\n            try\n#endif\n            {\n                d1::wait(m_wait_vertex.get_context(), context());\n            }\n#if TBB_USE_EXCEPTIONS\n            catch (...) {}\n#endif\n')]),
     dict(name='c15-b-limiter-clamp-written-inline', prop='C15', edits=[('include/oneapi/tbb/flow_graph.h', '        if ( !rtask ) {  // try_put_task failed.\n            spin_mutex::scoped_lock lock(my_mutex);\n            --my_tries;\n            trim_future_decrement();\n', '        if ( !rtask ) {  // try_put_task failed.\n            spin_mutex::scoped_lock lock(my_mutex);\n            --my_tries;\n            if ( my_future_decrement > my_tries ) my_future_decrement = my_tries;\n')]),
     dict(name='c02-b-mandatory-request-count-read-by-load', prop='C02', edits=[('src/tbb/thread_request_serializer.cpp', '    } else if (my_num_mandatory_requests > 0) {\n        my_is_mandatory_concurrency_enabled = true;\n        soft_limit = 1;\n    }\n', '    } else if (my_num_mandatory_requests.load(std::memory_order_relaxed) != 0) {\n        soft_limit = 1;\n        my_is_mandatory_concurrency_enabled = true;\n    }\n')]),
     dict(name='c04-b-ancestor-climb-explicit-root-exit', prop='C04', edits=[('src/tbb/task_group_context.cpp', '                    (c->*mptr_state).store(new_state, std::memory_order_relaxed);\n                break;\n            }\n        }\n', '                    (c->*mptr_state).store(new_state, std::memory_order_relaxed);\n                break;\n            }\n            if (ancestor->my_parent == nullptr)\n                break;     // the root is not the source: ctx does not descend from it\n        }\n')]),
